@@ -93,3 +93,12 @@ Theorem C15_flag_set_once_would_diverge :
   pp (fst (x_run cstep0 first_pick v_once cfgT s_j [E 3 (Core (CreateNode 2 2))])).
 Proof. vm_compute. discriminate. Qed.
 Print Assumptions C15_flag_set_once_would_diverge.
+
+(* C15-database-shardkey-type-dropped: DatabaseInfo.marshal writes the shard key only when the key list is non-nil *)
+Record dbski := { k_keys : list Z; k_type : Z }.
+Definition ski_persisted (fixed : bool) (s : dbski) : dbski :=
+  if fixed then s else match k_keys s with [] => {| k_keys := []; k_type := 0 |} | _ => s end.
+Theorem C15_database_shardkey_type_refuted :
+  (exists s, ski_persisted false s <> s) /\ (forall s, ski_persisted true s = s).
+Proof. split; [exists {| k_keys := []; k_type := 1 |}; vm_compute; discriminate | intros; reflexivity]. Qed.
+Print Assumptions C15_database_shardkey_type_refuted.
